@@ -5,10 +5,11 @@ import NV.C10.LemmasSimOps
 
 namespace NV.C10
 
-theorem toPend_coCall (w : World) (o f : Nat) (tag : String) (delay : Int) :
-    toPend (coCall w o f tag delay) =
+theorem toPend_coCall (w : World) (o f : Nat) (tag : String) (delay : Int) (fp : Bool) :
+    toPend (coCall w o f tag delay fp) =
       { owner := o, fn := f, tag := tag, due := vnow w + (if delay < 1 then 1 else delay),
-        handle := ((coSlot w delay + N * (w.unique + 1) : Nat) : Int) } := by
+        handle := ((coSlot w delay + N * (w.unique + 1) : Nat) : Int), fp := fp,
+        giver := liveGiver w w.giver } := by
   unfold toPend coCall coDue coD vnow
   simp only [Pend.mk.injEq, true_and, and_true]
   omega
@@ -17,11 +18,14 @@ theorem coCot_ge (w : World) : w.cot ≤ coCot w := by
   unfold coCot; split <;> omega
 
 theorem sim_co {tick : Bool} {w : World} {j : JState} (_hw : WheelInv w) (h : SimJ tick w j)
-    (self fn : Nat) (delay : Int) (tag : String) (halive : isDead w self = false) :
-    SimJ tick { (newCallOut w self fn tag delay).1 with
-                hmap := ((self, tag), (newCallOut w self fn tag delay).2) :: (newCallOut w self fn tag delay).1.hmap }
-      (judgeStep j (.co (vnow w) self fn delay tag ((newCallOut w self fn tag delay).2 : Int))) := by
+    (self fn : Nat) (delay : Int) (tag : String) (fp : Bool) (halive : isDead w self = false) :
+    SimJ tick { (newCallOut w self fn tag delay fp).1 with
+                hmap := ((self, tag), (newCallOut w self fn tag delay fp).2) :: (newCallOut w self fn tag delay fp).1.hmap }
+      (judgeStep j (.co (vnow w) self fn delay tag ((newCallOut w self fn tag delay fp).2 : Int) fp (liveGiver w w.giver))) := by
   rw [newCallOut_snd]
+  have key : ∀ c, InWheel (newCallOut w self fn tag delay fp).1 c ↔ (c = coCall w self fn tag delay fp ∨ InWheel w c) :=
+    inWheel_newCallOut self fn tag delay fp
+  rw [newCallOut_fst] at key ⊢
   have hslot : coSlot w delay < N := slotOf_lt _
   have hh0 : (((coSlot w delay + N * (w.unique + 1) : Nat) : Int) == 0) = false := by
     have := N_pos
@@ -33,8 +37,9 @@ theorem sim_co {tick : Bool} {w : World} {j : JState} (_hw : WheelInv w) (h : Si
     | true =>
       have := h.allLt _ (List.contains_iff_mem.1 hc)
       omega
-  have hj : judgeStep j (.co (vnow w) self fn delay tag ((coSlot w delay + N * (w.unique + 1) : Nat) : Int)) =
-      { j with pend := toPend (coCall w self fn tag delay) :: j.pend,
+  have hj : judgeStep j (.co (vnow w) self fn delay tag ((coSlot w delay + N * (w.unique + 1) : Nat) : Int) fp
+      (liveGiver w w.giver)) =
+      { j with pend := toPend (coCall w self fn tag delay fp) :: j.pend,
                handles := ((self, tag), ((coSlot w delay + N * (w.unique + 1) : Nat) : Int)) :: j.handles,
                allHandles := ((coSlot w delay + N * (w.unique + 1) : Nat) : Int) :: j.allHandles } := by
     rw [toPend_coCall]
@@ -65,18 +70,17 @@ theorem sim_co {tick : Bool} {w : World} {j : JState} (_hw : WheelInv w) (h : Si
     show p.handle < ((coSlot w delay + N * (w.unique + 1) : Nat) : Int)
     omega
   · intro c hc
-    have hc' : InWheel (newCallOut w self fn tag delay).1 c := hc.congr rfl
-    rcases (inWheel_newCallOut self fn tag delay c).1 hc' with rfl | hc'
+    rcases (key c).1 (hc.congr rfl) with rfl | hc'
     · exact List.mem_cons_self
     · exact List.mem_cons_of_mem _ (h.wheelPend c hc')
   · intro p hp
     simp only [List.mem_cons] at hp
     rcases hp with rfl | hp
     · left
-      exact ⟨_, ((inWheel_newCallOut self fn tag delay _).2 (Or.inl rfl)).congr rfl, rfl⟩
+      exact ⟨_, ((key _).2 (Or.inl rfl)).congr rfl, rfl⟩
     · rcases h.pendWheel p hp with ⟨c, hc1, hc2⟩ | hx
       · left
-        exact ⟨c, ((inWheel_newCallOut self fn tag delay c).2 (Or.inr hc1)).congr rfl, hc2⟩
+        exact ⟨c, ((key c).2 (Or.inr hc1)).congr rfl, hc2⟩
       · right
         refine ⟨hx.1, ?_⟩
         show p.due ≤ ((coCot w : Nat) : Int) - (T0 : Int)
